@@ -421,4 +421,109 @@ theorem trustLoop_no_panic (ok : Nat → Nat → Bool) (needed : Nat) (vals : Li
         exact ih _ _ _ (by omega)
     · exact ih _ _ _ ht
 
+/-! ### which entries the light loop consumes (used by C01) -/
+
+theorem lightLoop_ok_consumed (ok : Nat → Nat → Bool) (needed : Nat) (vs : List Validator) :
+    ∀ (idx t : Nat) (ss : List CSig) (k : Nat) (hk : k < ss.length),
+      lightLoop ok needed idx t vs ss = .ok → k < vs.length → ss[k].flag = .commit →
+      t + commitPow (vs.take k) (ss.take k) ≤ needed →
+      ss[k].hasSig = true ∧ ok (idx + k) (idx + k) = true := by
+  induction vs with
+  | nil => intro idx t ss k hk _ hkv; simp at hkv
+  | cons v vs ih =>
+    intro idx t ss k hk hacc hkv hflag hpre
+    cases ss with
+    | nil => simp at hk
+    | cons s ss =>
+      rw [lightLoop] at hacc
+      cases k with
+      | zero =>
+        simp only [List.getElem_cons_zero] at hflag
+        rw [if_pos hflag] at hacc
+        by_cases hs : s.hasSig = false
+        · rw [if_pos hs] at hacc; simp at hacc
+        · rw [if_neg hs] at hacc
+          by_cases ho : ok idx idx = false
+          · rw [if_pos ho] at hacc; simp at hacc
+          · simp only [List.getElem_cons_zero, Nat.add_zero]
+            exact ⟨by simpa using hs, by simpa using ho⟩
+      | succ k =>
+        simp only [List.getElem_cons_succ] at hflag
+        have hk' : k < ss.length := by simpa using hk
+        have hkv' : k < vs.length := by simpa using hkv
+        have hcp : commitPow ((v :: vs).take (k + 1)) ((s :: ss).take (k + 1)) =
+            (if s.flag = .commit then v.power else 0) + commitPow (vs.take k) (ss.take k) := by
+          simp [commitPow]
+        rw [hcp] at hpre
+        simp only [List.getElem_cons_succ]
+        have hidx : idx + (k + 1) = idx + 1 + k := by omega
+        rw [hidx]
+        by_cases hc : s.flag = .commit
+        · rw [if_pos hc] at hacc hpre
+          by_cases hs : s.hasSig = false
+          · rw [if_pos hs] at hacc; simp at hacc
+          · rw [if_neg hs] at hacc
+            by_cases ho : ok idx idx = false
+            · rw [if_pos ho] at hacc; simp at hacc
+            · rw [if_neg ho] at hacc
+              by_cases hov : t + v.power ≥ U64_LIMIT
+              · rw [if_pos hov] at hacc; simp at hacc
+              · rw [if_neg hov, if_neg (by omega)] at hacc
+                exact ih (idx + 1) (t + v.power) ss k hk' hacc hkv' hflag (by omega)
+        · rw [if_neg hc] at hacc hpre
+          exact ih (idx + 1) t ss k hk' hacc hkv' hflag (by omega)
+
+/-- an accepted commit has a first block-commit entry (nothing tallied before it) -/
+theorem lightLoop_ok_exists (ok : Nat → Nat → Bool) (needed : Nat) (vs : List Validator) :
+    ∀ (idx t : Nat) (ss : List CSig), lightLoop ok needed idx t vs ss = .ok →
+      ∃ (k : Nat) (hk : k < ss.length), k < vs.length ∧ ss[k].flag = .commit ∧
+        commitPow (vs.take k) (ss.take k) = 0 := by
+  induction vs with
+  | nil => intro idx t ss h; simp [lightLoop] at h
+  | cons v vs ih =>
+    intro idx t ss hacc
+    cases ss with
+    | nil => simp [lightLoop] at hacc
+    | cons s ss =>
+      by_cases hc : s.flag = .commit
+      · exact ⟨0, by simp, by simp, by simpa using hc, by simp [commitPow]⟩
+      · rw [lightLoop, if_neg hc] at hacc
+        obtain ⟨k, hk, hkv, hflag, hpre⟩ := ih (idx + 1) t ss hacc
+        refine ⟨k + 1, by simpa using hk, by simpa using hkv, by simpa using hflag, ?_⟩
+        simp [commitPow, hc, hpre]
+
+/-- the light loop reads only flag and signature presence of the entries -/
+theorem lightLoop_congr (ok : Nat → Nat → Bool) (needed : Nat) (vs : List Validator) :
+    ∀ (idx t : Nat) (ss ss' : List CSig),
+      ss'.map (fun a => (a.flag, a.hasSig)) = ss.map (fun a => (a.flag, a.hasSig)) →
+      lightLoop ok needed idx t vs ss' = lightLoop ok needed idx t vs ss := by
+  induction vs with
+  | nil => intro idx t ss ss' _; simp [lightLoop]
+  | cons v vs ih =>
+    intro idx t ss ss' h
+    cases ss with
+    | nil =>
+      have : ss' = [] := by simpa using h
+      rw [this]
+    | cons a l =>
+      cases ss' with
+      | nil => simp at h
+      | cons b l' =>
+        simp only [List.map_cons, List.cons.injEq, Prod.mk.injEq] at h
+        obtain ⟨⟨h1, h2⟩, hrest⟩ := h
+        rw [lightLoop, lightLoop, h1, h2]
+        rw [ih (idx + 1) (t + v.power) l l' hrest, ih (idx + 1) t l l' hrest]
+
+/-- commit power before position `k`, as the spec sums it -/
+theorem commitPow_take_eq (vs : List Validator) (ss : List CSig) (k : Nat)
+    (hkv : k ≤ vs.length) :
+    commitPow (vs.take k) (ss.take k) = sumBelow k (fun i =>
+      if ((ss.map toEntry).getD i noVote).isCommit = true then (vs.map (·.power)).getD i 0 else 0) := by
+  rw [commitPow_eq]
+  have hl : (vs.take k).length = k := by simp [hkv]
+  rw [hl]
+  apply sumBelow_congr
+  intro i hi
+  simp [List.getD_eq_getElem?_getD, hi]
+
 end Lumina.Proofs.Commit
